@@ -411,6 +411,160 @@ def after_violation_check(part: Part, cfg, bad):
         loop.finish()
 
 
+# ---------------------------------------------------------------- "without a negotiated extension": the real handshakes
+class _Env:
+    def connect_gate(self, req):
+        return None
+
+    def new_peer(self, req, index):
+        from mc.client import ScriptPeer
+        return ScriptPeer(self, index, req.connection_key)
+
+    def on_acquire(self, proto, req):
+        pass
+
+
+OFFERS = {
+    "none": None,
+    "deflate": "permessage-deflate",
+    "deflate-cmw": "permessage-deflate; client_max_window_bits",
+    "deflate-smw8": "permessage-deflate; server_max_window_bits=8",     # a window zlib cannot do: declined
+    "unknown": "x-webkit-deflate-frame",
+}
+
+
+def negotiation_check(part: Part, side, ours, theirs):
+    """The reader an endpoint really builds after its handshake: RSV1 is acceptable exactly when the handshake that went
+    over the wire agreed on permessage-deflate.  side: which end is aiohttp; ours: its compress option; theirs: what
+    the scripted peer offers (to a server) or answers (to a client)."""
+    import base64
+    import hashlib
+
+    import aiohttp
+    from aiohttp import ClientTimeout, web
+
+    from mc.client import WireConnector
+    from mc.server import AppConn
+    from mc.vloop import VLoop
+
+    GUID = b"258EAFA5-E914-47DA-95CA-C5AB0DC85B11"
+    KEY = b"dGhlIHNhbXBsZSBub25jZQ=="
+    case = {"kind": "negotiation", "cfg": {}, "shape": [side, ours, theirs]}
+    loop = VLoop().hold()
+    got = []
+    holder = {}
+    try:
+        co = zlib.compressobj(wbits=-15)
+        z = co.compress(b"hello") + co.flush(zlib.Z_SYNC_FLUSH)
+        z = z[:-4]
+
+        async def receiver(ws):
+            for _ in range(3):
+                m = await ws.receive()
+                got.append((m.type.name, m.data if not isinstance(m.data, (bytes, bytearray)) else bytes(m.data), getattr(m, "extra", None)))
+                if m.type.name in ("CLOSE", "CLOSED", "CLOSING", "ERROR"):
+                    break
+
+        if side == "server":
+            async def handler(request):
+                ws = web.WebSocketResponse(compress=ours, timeout=1.0)
+                await ws.prepare(request)
+                holder["ws"] = ws
+                await receiver(ws)
+                return ws
+
+            app = web.Application()
+            app.router.add_get("/ws", handler)
+            conn = AppConn(loop, app)
+            ext = (b"Sec-WebSocket-Extensions: " + OFFERS[theirs].encode() + b"\r\n") if OFFERS[theirs] else b""
+            conn.send(b"GET /ws HTTP/1.1\r\nHost: a\r\nUpgrade: websocket\r\nConnection: Upgrade\r\n" + ext +
+                      b"Sec-WebSocket-Key: " + KEY + b"\r\nSec-WebSocket-Version: 13\r\n\r\n")
+            conn.deliver_to_server()
+            loop.drain(300)
+            conn.ct.deliver() if conn.ct.deliverable() else None
+            head = bytes(conn.client.received).split(b"\r\n\r\n")[0].lower()
+            agreed = b"sec-websocket-extensions: permessage-deflate" in head
+            if b" 101 " not in head.split(b"\r\n")[0] + b" ":
+                part.violation("C12:negotiation:handshake-fails", f"server compress={ours} offer={theirs}: {head[:80]!r}", case)
+                return
+            send = lambda data: (conn.send(data), conn.deliver_to_server(), loop.drain(300))
+            mask = M
+        else:
+            env = _Env()
+            connector = WireConnector(env, limit=4)
+            session = aiohttp.ClientSession(connector=connector, timeout=ClientTimeout(total=None), cookie_jar=aiohttp.DummyCookieJar())
+
+            async def client_main():
+                try:
+                    ws = await session.ws_connect("http://a.test/ws", compress=ours)
+                except Exception as e:  # noqa: BLE001
+                    holder["connect_error"] = type(e).__name__
+                    return
+                holder["ws"] = ws
+                await receiver(ws)
+
+            t = loop.create_task(client_main())
+            loop.drain(300)
+            ct, st, peer = connector.created[0]
+            st.deliver()
+            reqhead = bytes(peer.buf).lower()
+            offered = b"sec-websocket-extensions: permessage-deflate" in reqhead
+            key = [l.split(b":", 1)[1].strip() for l in bytes(peer.buf).split(b"\r\n") if l.lower().startswith(b"sec-websocket-key")][0]
+            accept = base64.b64encode(hashlib.sha1(key + GUID).digest())
+            ext = (b"\r\nSec-WebSocket-Extensions: " + OFFERS[theirs].encode()) if OFFERS[theirs] else b""
+            peer.transport.write(b"HTTP/1.1 101 Switching Protocols\r\nUpgrade: websocket\r\nConnection: upgrade\r\nSec-WebSocket-Accept: " + accept + ext + b"\r\n\r\n")
+            ct.deliver()
+            loop.drain(300)
+            if "connect_error" in holder:
+                # refusing a handshake answer it did not ask for (or cannot honour) is the client's right
+                part.count("executions")
+                part.outcome(("negotiation", side, ours, theirs, "refused:" + holder["connect_error"]))
+                loop.create_task(session.close())
+                loop.drain(100)
+                return
+            # (any window the server announces can be inflated: an answer naming permessage-deflate to a client that
+            # offered it is an agreement)
+            agreed = offered and (OFFERS[theirs] or "").startswith("permessage-deflate")
+            holder["session"] = session
+
+            def send(data):
+                peer.transport.write(data)
+                ct.deliver() if ct.deliverable() else None
+                loop.drain(300)
+            mask = None
+        if "ws" not in holder:
+            part.violation("C12:negotiation:no-websocket", f"{side} compress={ours} peer={theirs}: the handshake did not produce a WebSocket", case)
+            return
+        # one frame with RSV1 set (a compressed "hello"), then a plain one
+        b0 = 0x80 | 0x40 | 0x1
+        if mask:
+            frame = bytes([b0, 0x80 | len(z)]) + mask + bytes(c ^ mask[i % 4] for i, c in enumerate(z))
+        else:
+            frame = bytes([b0, len(z)]) + z
+        send(frame)
+        send(F(1, b"plain", mask=mask))
+        loop.drain(300)
+        part.count("executions")
+        part.count("transitions", 3)
+        kinds = [g[0] for g in got]
+        part.outcome(("negotiation", side, ours, theirs, agreed, tuple(kinds)))
+        tag = f"{side} compress={ours!r}, peer {'offers' if side == 'server' else 'answers'} {OFFERS[theirs]!r} (extension agreed on the wire: {agreed})"
+        if agreed:
+            if not got or got[0][:2] != ("TEXT", "hello"):
+                part.violation("C12:negotiation:agreed-but-rsv1-refused", f"{tag}: the compressed frame was delivered as {got[:1]}", case)
+        else:
+            if any(g[0] in ("TEXT", "BINARY") and g[1] in ("hello", b"hello") for g in got):
+                part.violation("C12:negotiation:rsv1-accepted-without-extension",
+                               f"{tag}: a frame with RSV1 set was inflated and delivered: {got[:2]}", case)
+            elif got and got[0][0] in ("TEXT", "BINARY"):
+                part.violation("C12:negotiation:rsv1-frame-delivered", f"{tag}: a frame with RSV1 set was delivered as data: {got[:1]}", case)
+        if "session" in holder:
+            loop.create_task(holder["session"].close())
+            loop.drain(100)
+    finally:
+        loop.finish()
+
+
 HISTORY_SHAPES = [(k, m, c) for k in ("binary", "text", "ping") for m in (False, True) for c in ("header|payload", "header-1", "mid", "whole")]
 
 
@@ -424,6 +578,14 @@ def _job(job):
                 absent_consumer_check(part, job[1], kind, size)
         for bad in ("op15", "close", "ping-frag"):
             after_violation_check(part, job[1], bad)
+        return part
+    if job[0] == "negotiation":
+        part = Part()
+        for side, ours_list in (("server", (True, False)), ("client", (0, 15))):
+            for ours in ours_list:
+                for theirs in OFFERS:
+                    negotiation_check(part, side, ours, theirs)
+        part.state(("negotiation",))
         return part
     cfg, seqs, two, bytewise = job
     T = tokens(cfg)
@@ -473,6 +635,7 @@ def run(ctx):
             jobs.append((cfg, d3[i:i + 300], not ctx.quick, True))
     for cfg in (CONFIGS[:5] if ctx.quick else CONFIGS):
         jobs.append(("history", cfg))
+    jobs.append(("negotiation",))
     for part in ctx.pmap(_job, jobs):
         ctx.merge(part)
     ctx.notes["configs"] = (CONFIGS[:5] if ctx.quick else CONFIGS)
@@ -483,6 +646,10 @@ def replay(case):
     if case.get("kind") == "history":
         part = Part()
         history_check(part, cfg, tuple(case["shape"]))
+        return part.violations
+    if case.get("kind") == "negotiation":
+        part = Part()
+        negotiation_check(part, *case["shape"])
         return part.violations
     if case.get("kind") == "absent":
         part = Part()
